@@ -2,3 +2,4 @@ pub mod artefacts;
 pub mod exec;
 pub mod front;
 pub mod swap;
+pub mod coop;
